@@ -578,3 +578,277 @@ Section Labels.
         injection R0 as <-; exists r; auto.
   Qed.
 End Labels.
+
+(* ================================================================== geo-referenced arrays and their histories *)
+(** What the recovery relies on in an array that was produced by [wrap_xr] and
+    then sliced / passed through element-wise operations: the two label
+    coordinates (values = label function over the current index lists, attrs,
+    encoding), the CRS coordinate if any, no grid_mapping/crs attributes on the
+    array itself. *)
+Record georef (yd xd : string) (fyl fxl : Z -> Q) (ay ax : attrs) (Py P : option aff)
+       (gm0 : option string) (ccn : option (string * coord)) (iy ix : list Z) (x : xobj) : Prop := {
+  gr_da : x_is_ds x = false;
+  gr_sd : spatial_dims (map fst (x_dims x)) = Some (yd, xd);
+  gr_ny : lookup yd (x_dims x) = Some (zlen iy);
+  gr_nx : lookup xd (x_dims x) = Some (zlen ix);
+  gr_cy : lookup yd (x_coords x) = Some (Coord [yd] (map fyl iy) ay Py);
+  gr_cx : lookup xd (x_coords x) = Some (Coord [xd] (map fxl ix) ax P);
+  gr_gm : x_gm x = None \/ x_gm x = gm0;
+  gr_at : lookup "grid_mapping" (x_attrs x) = None /\ lookup "crs" (x_attrs x) = None /\
+          lookup "crs_wkt" (x_attrs x) = None;
+  gr_ref : filter (fun nc => is_spatial_ref (snd nc)) (x_coords x) =
+           match ccn with Some p => [p] | None => [] end;
+  gr_cc : match gm0 with Some n => lookup n (x_coords x) = option_map snd ccn | None => True end;
+  gr_ccd : match ccn with Some p => co_dims (snd p) = [] | None => True end
+}.
+
+Lemma georef_crs_coords yd xd fyl fxl ay ax Py P gm0 ccn iy ix x :
+  georef yd xd fyl fxl ay ax Py P gm0 ccn iy ix x ->
+  exists nm, locate_crs_coords (x_gm x) (x_attrs x) (x_coords x) =
+             match ccn with Some p => [(nm, snd p)] | None => [] end.
+Proof.
+  intros G. destruct (gr_at _ _ _ _ _ _ _ _ _ _ _ _ _ G) as (A1 & _).
+  unfold locate_crs_coords, grid_mapping_of.
+  destruct (gr_gm _ _ _ _ _ _ _ _ _ _ _ _ _ G) as [E|E]; rewrite E.
+  - rewrite A1. rewrite (gr_ref _ _ _ _ _ _ _ _ _ _ _ _ _ G). destruct ccn as [[n c]|]; [exists n|exists ""]; reflexivity.
+  - destruct gm0 as [n|].
+    + pose proof (gr_cc _ _ _ _ _ _ _ _ _ _ _ _ _ G) as C. simpl in C. rewrite C.
+      exists n. destruct ccn as [[n' c]|]; reflexivity.
+    + rewrite A1. rewrite (gr_ref _ _ _ _ _ _ _ _ _ _ _ _ _ G). destruct ccn as [[n c]|]; [exists n|exists ""]; reflexivity.
+Qed.
+
+(* ------------------------------------------------------------------ isel *)
+Lemma lookup_dims_resize (dims : list (string * Z)) d m k :
+  lookup k (map (fun dn => if String.eqb (fst dn) d then (fst dn, m) else dn) dims) =
+  if String.eqb k d then option_map (fun _ => m) (lookup k dims) else lookup k dims.
+Proof.
+  induction dims as [|(k', v) dims IH]; simpl; [destruct (String.eqb k d); reflexivity|].
+  destruct (String.eqb k' d) eqn:E1; simpl.
+  - destruct (String.eqb k k') eqn:E2.
+    + apply String.eqb_eq in E2; subst. rewrite E1. reflexivity.
+    + exact IH.
+  - destruct (String.eqb k k') eqn:E2.
+    + apply String.eqb_eq in E2; subst. rewrite E1. reflexivity.
+    + exact IH.
+Qed.
+
+Lemma map_fst_resize (dims : list (string * Z)) d m :
+  map fst (map (fun dn => if String.eqb (fst dn) d then (fst dn, m) else dn) dims) = map fst dims.
+Proof.
+  rewrite map_map. apply map_ext. intros (k, v); simpl. destruct (String.eqb k d); reflexivity.
+Qed.
+
+Lemma filter_map_val {V} (p : V -> bool) (g : V -> V) (l : list (string * V)) :
+  (forall v, p (g v) = p v) ->
+  filter (fun nc => p (snd nc)) (map (fun nc => (fst nc, g (snd nc))) l) =
+  map (fun nc => (fst nc, g (snd nc))) (filter (fun nc => p (snd nc)) l).
+Proof.
+  intros H. induction l as [|(k, v) l IH]; simpl; auto.
+  rewrite H. destruct (p v); simpl; rewrite IH; reflexivity.
+Qed.
+
+Lemma slice_idx_in_range n s idx : 0 <= n -> slice_idx n s = Ok idx -> forall i, In i idx -> 0 <= i < n.
+Proof.
+  intros Hn. unfold slice_idx.
+  destruct (slice_adjust n s) as [[[start step] m]|e] eqn:E; simpl; [|discriminate].
+  intros H; injection H as <-. intros i Hi.
+  destruct (slice_adjust_spec n s start step m Hn E) as (_ & _ & Hr).
+  apply in_map_iff in Hi. destruct Hi as (k & <- & Hk). apply In_iota in Hk. apply Hr; auto.
+Qed.
+
+Lemma zlen_pick {A} (l : list A) idx : (forall i, In i idx -> 0 <= i < zlen l) -> zlen (pick l idx) = zlen idx.
+Proof.
+  unfold zlen. intros H. f_equal. unfold pick.
+  induction idx as [|i idx IH]; simpl; auto.
+  rewrite app_length.
+  assert (Hi : 0 <= i < Z.of_nat (List.length l)) by (apply H; now left).
+  destruct (Z.ltb_spec i 0); [lia|].
+  destruct (nth_error l (Z.to_nat i)) eqn:E.
+  - simpl. f_equal. apply IH. intros; apply H; now right.
+  - apply nth_error_None in E. lia.
+Qed.
+
+Definition sel1 (dim : string) (idx : list Z) (c : coord) : coord :=
+  if smem dim (co_dims c)
+  then Coord (co_dims c) (match co_dims c with [_] => pick (co_vals c) idx | _ => co_vals c end)
+             (co_attrs c) (co_tr c)
+  else c.
+
+Lemma isel_unfold x dim s n :
+  lookup dim (x_dims x) = Some n ->
+  isel x dim s =
+  (idx <- slice_idx n s ;;
+   Ok (XObj (x_is_ds x)
+            (map (fun dn => if String.eqb (fst dn) dim then (fst dn, zlen idx) else dn) (x_dims x))
+            (x_gm x) (x_attrs x)
+            (map (fun nc => (fst nc, sel1 dim idx (snd nc))) (x_coords x)) (x_vars x))).
+Proof. intros H; unfold isel; rewrite H; reflexivity. Qed.
+
+Lemma is_spatial_ref_sel1 dim idx c : is_spatial_ref (sel1 dim idx c) = is_spatial_ref c.
+Proof. unfold sel1. destruct (smem dim (co_dims c)); reflexivity. Qed.
+
+Lemma sel1_scalar dim idx c : co_dims c = [] -> sel1 dim idx c = c.
+Proof. intros H; unfold sel1; rewrite H; reflexivity. Qed.
+
+Lemma sel1_other dim idx d vals a tr : d <> dim -> sel1 dim idx (Coord [d] vals a tr) = Coord [d] vals a tr.
+Proof.
+  intros N; unfold sel1; simpl.
+  destruct (String.eqb dim d) eqn:E; [apply String.eqb_eq in E; congruence | reflexivity].
+Qed.
+
+Lemma sel1_same dim idx vals a tr : sel1 dim idx (Coord [dim] vals a tr) = Coord [dim] (pick vals idx) a tr.
+Proof. unfold sel1; simpl. rewrite String.eqb_refl. reflexivity. Qed.
+
+Section History.
+  Variables (yd xd : string) (fyl fxl : Z -> Q) (ay ax : attrs) (Py P : option aff)
+            (gm0 : option string) (ccn : option (string * coord)).
+  Hypothesis Hne : yd <> xd.
+
+  Lemma georef_isel iy ix x d s x' :
+    georef yd xd fyl fxl ay ax Py P gm0 ccn iy ix x ->
+    isel x d s = Ok x' ->
+    exists iy' ix',
+      axis_idx yd iy [OIsel d s] = Ok iy' /\ axis_idx xd ix [OIsel d s] = Ok ix' /\
+      georef yd xd fyl fxl ay ax Py P gm0 ccn iy' ix' x'.
+  Proof.
+    intros G E.
+    destruct (lookup d (x_dims x)) as [n|] eqn:Ed; [|unfold isel in E; rewrite Ed in E; discriminate].
+    rewrite (isel_unfold x d s n Ed) in E.
+    destruct (slice_idx n s) as [idx|e] eqn:Es; simpl in E; [|discriminate].
+    injection E as <-.
+    pose proof (gr_ny _ _ _ _ _ _ _ _ _ _ _ _ _ G) as Hny.
+    pose proof (gr_nx _ _ _ _ _ _ _ _ _ _ _ _ _ G) as Hnx.
+    simpl.
+    assert (Hiy : exists iy', (if String.eqb d yd then i <- slice_idx (zlen iy) s ;; Ok (pick iy i) else Ok iy) = Ok iy' /\
+                              iy' = (if String.eqb d yd then pick iy idx else iy) /\ zlen iy' = (if String.eqb d yd then zlen idx else zlen iy)).
+    { destruct (String.eqb d yd) eqn:Ey.
+      - apply String.eqb_eq in Ey; subst d. rewrite Hny in Ed; injection Ed as <-. rewrite Es. simpl.
+        eexists; split; [reflexivity|]. split; auto.
+        apply zlen_pick. eapply slice_idx_in_range; eauto. apply zlen_nonneg.
+      - eexists; split; [reflexivity|]. auto. }
+    assert (Hix : exists ix', (if String.eqb d xd then i <- slice_idx (zlen ix) s ;; Ok (pick ix i) else Ok ix) = Ok ix' /\
+                              ix' = (if String.eqb d xd then pick ix idx else ix) /\ zlen ix' = (if String.eqb d xd then zlen idx else zlen ix)).
+    { destruct (String.eqb d xd) eqn:Ex.
+      - apply String.eqb_eq in Ex; subst d. rewrite Hnx in Ed; injection Ed as <-. rewrite Es. simpl.
+        eexists; split; [reflexivity|]. split; auto.
+        apply zlen_pick. eapply slice_idx_in_range; eauto. apply zlen_nonneg.
+      - eexists; split; [reflexivity|]. auto. }
+    destruct Hiy as (iy' & Ey1 & Ey2 & Ey3). destruct Hix as (ix' & Ex1 & Ex2 & Ex3).
+    exists iy', ix'.
+    split. { destruct (String.eqb d yd); [destruct (slice_idx (zlen iy) s); simpl in *; congruence | congruence]. }
+    split. { destruct (String.eqb d xd); [destruct (slice_idx (zlen ix) s); simpl in *; congruence | congruence]. }
+    constructor; simpl.
+    - apply (gr_da _ _ _ _ _ _ _ _ _ _ _ _ _ G).
+    - rewrite map_fst_resize. apply (gr_sd _ _ _ _ _ _ _ _ _ _ _ _ _ G).
+    - rewrite lookup_dims_resize, Hny, Ey3. rewrite (String.eqb_sym yd d). destruct (String.eqb d yd); reflexivity.
+    - rewrite lookup_dims_resize, Hnx, Ex3. rewrite (String.eqb_sym xd d). destruct (String.eqb d xd); reflexivity.
+    - rewrite lookup_map_val, (gr_cy _ _ _ _ _ _ _ _ _ _ _ _ _ G). simpl. f_equal. subst iy'.
+      destruct (String.eqb d yd) eqn:E1.
+      + apply String.eqb_eq in E1; subst d. rewrite sel1_same, pick_map. reflexivity.
+      + apply sel1_other. intros ->. rewrite String.eqb_refl in E1; discriminate.
+    - rewrite lookup_map_val, (gr_cx _ _ _ _ _ _ _ _ _ _ _ _ _ G). simpl. f_equal. subst ix'.
+      destruct (String.eqb d xd) eqn:E1.
+      + apply String.eqb_eq in E1; subst d. rewrite sel1_same, pick_map. reflexivity.
+      + apply sel1_other. intros ->. rewrite String.eqb_refl in E1; discriminate.
+    - apply (gr_gm _ _ _ _ _ _ _ _ _ _ _ _ _ G).
+    - apply (gr_at _ _ _ _ _ _ _ _ _ _ _ _ _ G).
+    - rewrite (filter_map_val is_spatial_ref (sel1 d idx)) by (apply is_spatial_ref_sel1).
+      rewrite (gr_ref _ _ _ _ _ _ _ _ _ _ _ _ _ G).
+      pose proof (gr_ccd _ _ _ _ _ _ _ _ _ _ _ _ _ G) as D.
+      destruct ccn as [[n1 c]|]; simpl; auto. simpl in D. rewrite sel1_scalar by auto. reflexivity.
+    - pose proof (gr_cc _ _ _ _ _ _ _ _ _ _ _ _ _ G) as C.
+      pose proof (gr_ccd _ _ _ _ _ _ _ _ _ _ _ _ _ G) as D.
+      destruct gm0 as [n0|]; auto. rewrite lookup_map_val, C.
+      destruct ccn as [[n' c]|]; simpl; auto. simpl in D. rewrite sel1_scalar by auto. reflexivity.
+    - apply (gr_ccd _ _ _ _ _ _ _ _ _ _ _ _ _ G).
+  Qed.
+End History.
+
+(* ------------------------------------------------------------------ element-wise operations *)
+Lemma lookup_In {V} k (v : V) l : lookup k l = Some v -> In (k, v) l.
+Proof.
+  induction l as [|(k', v') l IH]; simpl; [discriminate|].
+  destruct (String.eqb k k') eqn:E.
+  - apply String.eqb_eq in E; subst. intros H; injection H as ->. now left.
+  - intros H; right; auto.
+Qed.
+
+Lemma amap_eqb_Z_lookup (a b : list (string * Z)) k v :
+  amap_eqb Z.eqb a b = true -> lookup k a = Some v -> lookup k b = Some v.
+Proof.
+  unfold amap_eqb. rewrite andb_true_iff, !forallb_forall. intros (H1 & _) L.
+  specialize (H1 (k, v) (lookup_In _ _ _ L)). simpl in H1.
+  destruct (lookup k b) as [v'|]; simpl in H1; [|discriminate].
+  apply Z.eqb_eq in H1. congruence.
+Qed.
+
+Lemma kept_or_dropped_none k a a' : kept_or_dropped k a a' = true -> lookup k a = None -> lookup k a' = None.
+Proof.
+  unfold kept_or_dropped. destruct (lookup k a') as [v'|]; auto.
+  intros H E; rewrite E in H; discriminate.
+Qed.
+
+Lemma sd_eqb_eq a b : sd_eqb a b = true -> a = b.
+Proof.
+  destruct a, b; unfold sd_eqb; simpl. rewrite andb_true_iff, !String.eqb_eq. intros (-> & ->); reflexivity.
+Qed.
+
+Lemma georef_elem yd xd fyl fxl ay ax Py P gm0 ccn iy ix x dims' gm' attrs' x' :
+  georef yd xd fyl fxl ay ax Py P gm0 ccn iy ix x ->
+  elem_step x dims' gm' attrs' = Ok x' ->
+  georef yd xd fyl fxl ay ax Py P gm0 ccn iy ix x'.
+Proof.
+  intros G. unfold elem_step.
+  destruct (dims_eqb false (x_dims x) dims') eqn:C1; simpl; [|discriminate].
+  destruct (opt_eqb sd_eqb (spatial_dims (map fst (x_dims x))) (spatial_dims (map fst dims'))) eqn:C2; simpl; [|discriminate].
+  destruct (match gm' with None => true | Some s => opt_eqb String.eqb (x_gm x) (Some s) end) eqn:C3; simpl; [|discriminate].
+  destruct (kept_or_dropped "grid_mapping" (x_attrs x) attrs') eqn:C4; simpl; [|discriminate].
+  destruct (kept_or_dropped "crs" (x_attrs x) attrs') eqn:C5; simpl; [|discriminate].
+  destruct (kept_or_dropped "crs_wkt" (x_attrs x) attrs') eqn:C6; simpl; [|discriminate].
+  intros E; injection E as <-.
+  destruct (gr_at _ _ _ _ _ _ _ _ _ _ _ _ _ G) as (A1 & A2 & A3).
+  constructor; simpl.
+  - apply (gr_da _ _ _ _ _ _ _ _ _ _ _ _ _ G).
+  - rewrite (gr_sd _ _ _ _ _ _ _ _ _ _ _ _ _ G) in C2.
+    destruct (spatial_dims (map fst dims')) as [sd|]; simpl in C2; [|discriminate].
+    apply sd_eqb_eq in C2. congruence.
+  - eapply amap_eqb_Z_lookup; [exact C1 | apply (gr_ny _ _ _ _ _ _ _ _ _ _ _ _ _ G)].
+  - eapply amap_eqb_Z_lookup; [exact C1 | apply (gr_nx _ _ _ _ _ _ _ _ _ _ _ _ _ G)].
+  - apply (gr_cy _ _ _ _ _ _ _ _ _ _ _ _ _ G).
+  - apply (gr_cx _ _ _ _ _ _ _ _ _ _ _ _ _ G).
+  - destruct gm' as [s|]; [|left; reflexivity].
+    destruct (x_gm x) as [s0|] eqn:E0; simpl in C3; [|discriminate].
+    apply String.eqb_eq in C3; subst s0.
+    destruct (gr_gm _ _ _ _ _ _ _ _ _ _ _ _ _ G) as [E|E]; rewrite E0 in E; [discriminate | right; exact E].
+  - repeat split; eapply kept_or_dropped_none; eauto.
+  - apply (gr_ref _ _ _ _ _ _ _ _ _ _ _ _ _ G).
+  - apply (gr_cc _ _ _ _ _ _ _ _ _ _ _ _ _ G).
+  - apply (gr_ccd _ _ _ _ _ _ _ _ _ _ _ _ _ G).
+Qed.
+
+(** every finite history keeps the array geo-referenced, with the composed index maps *)
+Lemma georef_history yd xd fyl fxl ay ax Py P gm0 ccn : yd <> xd ->
+  forall h iy ix x x',
+    georef yd xd fyl fxl ay ax Py P gm0 ccn iy ix x ->
+    run_history x h = Ok x' ->
+    exists iy' ix',
+      axis_idx yd iy h = Ok iy' /\ axis_idx xd ix h = Ok ix' /\
+      georef yd xd fyl fxl ay ax Py P gm0 ccn iy' ix' x'.
+Proof.
+  intros Hne. induction h as [|o h IH]; intros iy ix x x' G; simpl.
+  - intros E; injection E as <-. exists iy, ix; auto.
+  - destruct o as [d s | dims' gm' attrs'].
+    + destruct (isel x d s) as [x1|e] eqn:E1; simpl; [|discriminate].
+      intros E2.
+      destruct (georef_isel yd xd fyl fxl ay ax Py P gm0 ccn Hne iy ix x d s x1 G E1)
+        as (iy1 & ix1 & A1 & A2 & G1).
+      destruct (IH iy1 ix1 x1 x' G1 E2) as (iy' & ix' & B1 & B2 & G').
+      exists iy', ix'. simpl in A1, A2.
+      split; [|split; [|exact G']].
+      * destruct (String.eqb d yd); [|congruence].
+        destruct (slice_idx (zlen iy) s); simpl in *; [|discriminate]. congruence.
+      * destruct (String.eqb d xd); [|congruence].
+        destruct (slice_idx (zlen ix) s); simpl in *; [|discriminate]. congruence.
+    + destruct (elem_step x dims' gm' attrs') as [x1|e] eqn:E1; simpl; [|discriminate].
+      intros E2. eapply IH; [|exact E2]. eapply georef_elem; eauto.
+Qed.
